@@ -144,6 +144,7 @@ def check_chunked(c, st):
             return ('chunked:law', 'concatenation / chunk-length law broken: %r' % (got[1],))
     if len(want) >= 2:
         st.see(('chunked', kind, size, tuple(data), c['count'], c['fill']))
+    caller_edits(got, got2)
     st.count('chunked')
     return None
 
@@ -174,6 +175,7 @@ def check_windowed(c, st):
             return ('pairwise:%s' % kind, 'pairwise(%r, %r) = %r / %r, want %r' % (data, kw2, gp, gpi, want))
     if len(want) >= 2:
         st.see(('windowed', kind, size, tuple(data), c['fill']))
+    caller_edits(got, got_i)
     st.count('windowed')
     return None
 
@@ -209,6 +211,7 @@ def check_split(c, st):
                 % (data, sepk, ms, got, got_i, s, want))
     if len(want) >= 2:
         st.see(('split', sepk, ms, tuple(data)))
+    caller_edits(got, got_i)
     st.count('split')
     return None
 
@@ -287,6 +290,27 @@ def keyval(keyname, x):
     return getattr(x, k, x)
 
 
+def caller_edits(*results):
+    """What a helper returns belongs to the caller: every returned list / dict / tuple of lists gets edited in place, so
+    that anything a later call shares with it (a module-level template, a memo) shows in that later call."""
+    def edit(x):
+        if isinstance(x, list):
+            x.append('zz-caller-edit')
+        elif isinstance(x, dict):
+            for v in list(x.values()):
+                edit(v)
+            x['zz-caller-edit'] = ['zz']
+        elif isinstance(x, tuple):
+            for v in x:
+                edit(v)
+    for res in results:
+        if res and res[0] == 'ok':
+            try:
+                edit(res[1])
+            except Exception:
+                pass
+
+
 def check_group(c, st):
     iu = common.load('iterutils')
     data, kn, kind = c['data'], c['key'], c['kind']
@@ -346,6 +370,7 @@ def check_group(c, st):
         want_p2 = ([x for x in data if x], [x for x in data if not x])
         if not same(gp2, ('ok', want_p2)):
             return ('partition', 'partition(%r) = %r want %r' % (data, gp2, want_p2))
+        caller_edits(gu, gr, gg, gb, gp2)
         st.count('group_mixed')
         return None
     pk = (lambda x: x % 2 == 1)
@@ -358,6 +383,7 @@ def check_group(c, st):
     want_p2 = ([x for x in data if x], [x for x in data if not x])
     if gp2 != ('ok', want_p2):
         return ('partition', 'partition(%r) = %r want %r' % (data, gp2, want_p2))
+    caller_edits(gu, gr, gg, gb, gp, gp2)
     if len(order) >= 1 and len(want_u) >= 2:
         st.see(('group', kn, tuple(data)))
     st.count('group')
